@@ -18,6 +18,61 @@ def _is_len_of_bits(e):
     return p.k == "call" and (p.q or "").split("::")[-1] == "len"
 
 
+def _crc_eq_fact(f):
+    if f[0] != "Eq":
+        return False
+    sides = [f[1], f[2]]
+    from_calc = [_has(x, lambda y: y.k == "call" and (y.q or "").endswith("find_right_crc")) for x in sides]
+    from_wire = [_has(x, lambda y: y.k == "call" and (y.q or "").endswith("from_le_bytes")) for x in sides]
+    return (from_calc[0] and from_wire[1]) or (from_calc[1] and from_wire[0])
+
+
+def _crc_guarded_option_fns(facts):
+    """local functions every `Some(..)` result of which (plain or inside Ok) is built behind the CRC-equality edge"""
+    out = set()
+    for b in facts.bodies:
+        if b.kind == "closure" or b.self_adt != DEFRAMER:
+            continue
+        somes = []
+        for bb in sorted(b.reachable(0)):
+            for st in b.blocks[bb]["stmts"]:
+                if st["k"] == "assign" and st["rv"]["k"] == "agg" and st["rv"].get("adt") == "std::option::Option" and st["rv"].get("variant") == "Some":
+                    somes.append(bb)
+        if somes and all(any(_crc_eq_fact(f) for f in facts_at(b, bb)) for bb in somes):
+            out.add(b.q)
+    return out
+
+
+def _pushed_value_crc_guarded(facts, body, pb):
+    t = body.term(pb)
+    if len(t["args"]) < 2:
+        return None
+    x = peel(body.operand_expr(t["args"][1]), through_try=False)
+    while x is not None and x.k in ("field", "downcast", "ref", "deref") and x.a is not None:
+        x = peel(x.a, through_try=False)
+    if x is None or x.k != "multi":
+        return None
+    guarded = _crc_guarded_option_fns(facts)
+    for dbb, si, kind, payload in body.defs().get(x.local, []):
+        setting = None
+        for f in facts_at(body, dbb):
+            if f[0] == "BoolVal":
+                fp = self_field_path(f[1])
+                if fp and fp[-1] == "strip_checksum":
+                    setting = f[2]
+        if setting is False:
+            continue
+        e = body.rvalue_expr(payload) if kind == "rv" else body.call_expr(dbb, payload)
+        if setting is True and any(y.k == "call" and ((y.q in guarded) or (y.rq in guarded)) for y in walk(e)):
+            continue
+        if setting is True and any(_crc_eq_fact(f) for f in facts_at(body, dbb)):
+            continue
+        if setting is None:
+            return "the pushed frame is produced on a path that does not depend on the checksum setting"
+        return "with checksum checking on, the pushed frame is not the result of a step guarded by `computed CRC == received FCS`"
+    return True
+
+
 def rule_r1(facts, col):
     """every packet emission is dominated by the length, minimum-size and (checksum on) CRC-equality guards"""
     for body in facts.bodies:
@@ -65,7 +120,11 @@ def rule_r1(facts, col):
             if crc_on is True and not crc_eq:
                 probs.append("checksum checking is on but the frame is emitted without passing `computed CRC == received FCS`")
             if crc_on is None:
-                probs.append("emission does not depend on the checksum setting")
+                # the two settings merged before the push: judge the value that is pushed, arm by arm - with checking on it
+                # must come out of a local function that yields Some(..) only behind `computed CRC == received FCS`
+                why = _pushed_value_crc_guarded(facts, body, pb)
+                if why is not True:
+                    probs.append(why or "emission does not depend on the checksum setting")
             if probs:
                 col.bad("C13.R1", key, body.where(pb), "a frame is emitted " + "; ".join(probs), {})
             else:
@@ -398,7 +457,7 @@ def run(ctx):
     ctx.floor("C13.R5", 1, "Synced restarts after the closing flag (3 today, 1 when built by a helper)")
     from . import c15
     c15.rule_scope(facts, ctx, lambda b: b.file == "src/hdlc_deframer.rs", rule_id="C13.R4")
-    ctx.floor("C13.R1", 2, "the two push sites (checksum on / off)")
+    ctx.floor("C13.R1", 1, "frame push sites (2 today: checksum on / off; 1 when the settings merge before the push)")
     ctx.floor("C13.R2", 1, "too-long abandonment")
     ctx.floor("C13.R3", 1, "state after the closing flag")
     ctx.explain("C13 (partial - 'nothing invalid is emitted'): every NCWriteStream::push in the deframer is dominated by the guards "
